@@ -14,7 +14,9 @@ RULE = ("(a) enumerated: every unordered pair of calls from the menu {store_obje
         "states {empty, p=X, p=X and q=X, X unreferenced, r=X, p=Y}, each run as 2 threads under EVERY schedule with "
         "<=1 preemption (quick; <=2 for the six most contended pairs) / <=2 preemptions (thorough), preemption points = every file-system operation, "
         "lock acquisition and condition wait of the owned scheduler; (b) Hypothesis: 3-thread programs over the "
-        "same menu with a generated schedule of <=4 preemptions. Oracle: the (per-call outcome vector, abstract "
+        "same menu with a generated schedule of <=4 preemptions; (c) holder / second / third triples (the holder is parked "
+        "at each of 8 hold points, the second and third call each run until they block or return, then the holder "
+        "continues) for every conflicting triple with holder in {store(p,X), tag(p,cidX), delete(p)} x 3 starts. Oracle: the (per-call outcome vector, abstract "
         "final state) must equal that of SOME sequential order of the same calls run on a copy of the start "
         "state (calls rejected with StoreObjectForPidAlreadyInProgress because another store_object of the "
         "program targets the same pid are dropped first); no deadlock. evaluations = controlled executions. "
@@ -85,6 +87,21 @@ def enumerate_cases(tier):
         for a in holds:
             yield dict(BASE, start_name="hwp:" + fam, start=start, calls=[h, w, p], mode="gen", order=[0, 1, 2],
                        preemptions=[list(x) for x in hwp_preemptions(a)], family="holder-waiter-passer-by")
+    # 'holder, second, third' triples: H is parked after k steps, the second call runs until it blocks or returns
+    # (e.g. a duplicate that is rejected), the third likewise, only then H continues.  Catches protection that a
+    # REJECTED or WAITING call takes away from the call in flight - invisible with two threads.
+    holders = (0, 4, 6) if tier == "quick" else range(len(MENU))          # store(p,X), tag(p,cidX), delete(p)
+    t_holds = (4, 9, 14, 19, 24, 30, 38, 46) if tier == "quick" else range(2, 56, 2)
+    t_starts = ("empty", "p=X", "p=X,q=X") if tier == "quick" else tuple(STARTS)
+    for sname in t_starts:
+        for h in holders:
+            for w in range(len(MENU)):
+                for p3 in range(len(MENU)):
+                    calls3 = [MENU[h], MENU[w], MENU[p3]]
+                    if not (conflicting(calls3[0], calls3[1]) and conflicting(calls3[0], calls3[2])):
+                        continue
+                    yield dict(BASE, start_name=sname, start=STARTS[sname], calls=calls3, mode="triple", holds=list(t_holds),
+                               family="holder-second-third")
     # quick tier: the six most contended pairs already get every schedule with <=2 preemptions
     DEEP = {("p=X", 2, 6), ("r=X", 4, 6), ("empty", 0, 1), ("p=X,q=X", 6, 7), ("p=X", 5, 6), ("p=X", 0, 6)}
     for sname in STARTS:
@@ -167,6 +184,16 @@ def run_case(case, ctx):
         if confl and n > 40:
             ctx.sample({"start": case["start_name"], "program": [conc.op_pattern(c, world) + ":" + str(c.get("pid")) for c in calls],
                         "schedules_explored": n})
+    elif case["mode"] == "triple":
+        for a in case["holds"]:
+            pre = hwp_preemptions(a)
+            ex = conc.run_program(world, calls, [0, 1, 2], pre)
+            if ex.used_preemptions == 0:
+                break                      # the holder finished before the hold point
+            ctx.count()
+            judge(ctx, world, case, calls, [0, 1, 2], [list(x) for x in pre], ex)
+            ctx.nontrivial([case["start_name"], [conc.op_pattern(c, world) for c in calls], [c.get("pid") for c in calls], a, ex.outcomes])
+        ctx.classify("holder-second-third-programs")
     else:
         ex = conc.run_program(world, calls, case["order"], [tuple(p) for p in case["preemptions"]])
         ctx.count()
